@@ -106,61 +106,94 @@ def lexOk : List Char → Bool
   | [] => false
   | q :: r => (q == '\'' || q == '"') && scanLit q r
 
+/-! ### which of the rules the checked tree implements (observed by translate/c19cfg.py → Gen/StubCfg.lean) -/
+
+structure DCfg where
+  /-- a unary operator spelled with letters is followed by a space: `not 1` (as found: `not1`) -/
+  notSpaced : Bool
+  /-- a float that is not finite is not rendered: `...` (as found: `inf`) -/
+  nonFiniteEllipsis : Bool
+  /-- bytes are `b` + quote + BytesExpr.value + quote with the quote `repr` chose
+      (as found: `"b" + repr(value).replace("\\\\", "\\")`) -/
+  bytesQuote : Bool
+deriving DecidableEq, Repr
+
+def DCfg.asFound : DCfg := ⟨false, false, false⟩
+def DCfg.repaired : DCfg := ⟨true, true, true⟩
+
+/-- the bytes literal's text after the `b` -/
+def renderBytesC (c : DCfg) (body : List Char) : List Char :=
+  if c.bytesQuote then reprQuote body :: body ++ [reprQuote body] else renderBytes body
+
+/-- BytesExpr.value is the body of a bytes `repr`: escapes are complete and the quote `repr` chose
+    (`reprQuote`) does not occur unescaped — the domain of bytes initializers -/
+def scanBody (q : Char) : List Char → Bool
+  | [] => true
+  | [c] => c != '\\' && c != q
+  | c :: d :: r => if c == '\\' then scanBody q r
+                   else if c == q then false
+                   else scanBody q (d :: r)
+
 /-! ### get_str_default_of_node -/
 
 def floatTok (text : String) (finite : Bool) : DTok := if finite then .num text else .name text
 
-/-- lexemes of `f"{op}{value}"` -/
-def unaryToks (o : UOp) (text : String) (finite : Bool) : List DTok :=
+/-- is a float literal rendered at all? -/
+def floatOk (c : DCfg) (finite : Bool) : Bool := !(c.nonFiniteEllipsis && !finite)
+
+/-- lexemes of `f"{op}{value}"` (as found) / `f"{op}{sep}{value}"` (repaired) -/
+def unaryToks (c : DCfg) (o : UOp) (text : String) (finite : Bool) : List DTok :=
   match o with
-  | .not => if text.toList.all Char.isAlphanum then [.name ("not" ++ text)] else [.raw ("not" ++ text)]
+  | .not =>
+    if c.notSpaced then [.op .not, floatTok text finite]
+    else if text.toList.all Char.isAlphanum then [.name ("not" ++ text)] else [.raw ("not" ++ text)]
   | o => [.op o, floatTok text finite]
 
 mutual
 /-- `(text, valid)`: `none` = `("...", False)` -/
-def render : DExpr → Option (List DTok)
+def render (c : DCfg) : DExpr → Option (List DTok)
   | .const c => some [.kw c]
   | .name _ => none
   | .int n => some [.num (toString n)]
-  | .float t f => some [floatTok t f]
+  | .float t f => if floatOk c f then some [floatTok t f] else none
   | .complex => none
   | .complexSum => none
   | .str i => some [.str i]
-  | .bytes b => some [.bytes (renderBytes b)]
+  | .bytes b => some [.bytes (renderBytesC c b)]
   | .unary o e =>
     match e with
-    | .int n => some (unaryToks o (toString n) true)
-    | .float t f => some (unaryToks o t f)
+    | .int n => some (unaryToks c o (toString n) true)
+    | .float t f => if floatOk c f then some (unaryToks c o t f) else none
     | _ => none
   | .tuple xs =>
     match xs with
     | .nil => some [.lpar, .rpar]
-    | .cons x .nil => (render x).map fun t => .lpar :: t ++ [.tcomma, .rpar]
-    | xs => (renderList xs).map fun t => .lpar :: t ++ [.rpar]
+    | .cons x .nil => (render c x).map fun t => .lpar :: t ++ [.tcomma, .rpar]
+    | xs => (renderList c xs).map fun t => .lpar :: t ++ [.rpar]
   | .list xs =>
     match xs with
     | .nil => some [.lbrk, .rbrk]
-    | xs => (renderList xs).map fun t => .lbrk :: t ++ [.rbrk]
+    | xs => (renderList c xs).map fun t => .lbrk :: t ++ [.rbrk]
   | .set xs =>
     match xs with
     | .nil => none
-    | xs => (renderList xs).map fun t => .lbrc :: t ++ [.rbrc]
+    | xs => (renderList c xs).map fun t => .lbrc :: t ++ [.rbrc]
   | .dict kvs =>
     match kvs with
     | .nil => some [.lbrc, .rbrc]
-    | kvs => (renderPairs kvs).map fun t => .lbrc :: t ++ [.rbrc]
+    | kvs => (renderPairs c kvs).map fun t => .lbrc :: t ++ [.rbrc]
   | .other => none
 /-- items joined by ", " (all must be valid) -/
-def renderList : DList → Option (List DTok)
+def renderList (c : DCfg) : DList → Option (List DTok)
   | .nil => some []
-  | .cons x .nil => render x
-  | .cons x xs => (render x).bind fun t => (renderList xs).map fun ts => t ++ .comma :: ts
-def renderPairs : DPairs → Option (List DTok)
+  | .cons x .nil => render c x
+  | .cons x xs => (render c x).bind fun t => (renderList c xs).map fun ts => t ++ .comma :: ts
+def renderPairs (c : DCfg) : DPairs → Option (List DTok)
   | .nil => some []
   | .spread _ _ => none
-  | .cons k v .nil => (render k).bind fun tk => (render v).map fun tv => tk ++ .colon :: tv
+  | .cons k v .nil => (render c k).bind fun tk => (render c v).map fun tv => tk ++ .colon :: tv
   | .cons k v rest =>
-    (render k).bind fun tk => (render v).bind fun tv => (renderPairs rest).map fun ts =>
+    (render c k).bind fun tk => (render c v).bind fun tv => (renderPairs c rest).map fun ts =>
       tk ++ .colon :: tv ++ .comma :: ts
 end
 def DTok.text : DTok → String
@@ -168,7 +201,7 @@ def DTok.text : DTok → String
   | .num t => t | .name t => t | .raw t => t
   | .str i => "'s" ++ toString i ++ "'"
   | .bytes t => "b" ++ String.ofList t
-  | .op o => o.text
+  | .op o => if o == .not then "not " else o.text
   | .lpar => "(" | .rpar => ")" | .lbrk => "[" | .rbrk => "]" | .lbrc => "{" | .rbrc => "}"
   | .comma => ", " | .tcomma => "," | .colon => ": " | .ellipsis => "..."
 
@@ -179,8 +212,8 @@ def textLen (strLen : Nat → Nat) (ts : List DTok) : Nat :=
   (ts.map fun t => match t with | .str i => strLen i | t => t.text.length).sum
 
 /-- `_get_func_args`: `default = potential_default if valid and len(potential_default) <= 200 else "..."` -/
-def defaultToks (strLen : Nat → Nat) (e : DExpr) : List DTok :=
-  match render e with
+def defaultToks (c : DCfg) (strLen : Nat → Nat) (e : DExpr) : List DTok :=
+  match render c e with
   | some t => if textLen strLen t ≤ 200 then t else [.ellipsis]
   | none => [.ellipsis]
 
@@ -247,7 +280,7 @@ inductive IsExpr : List DTok → Prop
   | str (i) : IsExpr [.str i]
   | ellipsis : IsExpr [.ellipsis]
   | bytes (t) : lexOk t = true → IsExpr [.bytes t]
-  | unary (o) (e) : o ≠ .not → IsExpr e → IsExpr (.op o :: e)
+  | unary (o) (e) : IsExpr e → IsExpr (.op o :: e)
   | tuple0 : IsExpr [.lpar, .rpar]
   | tuple1 (e) : IsExpr e → IsExpr (.lpar :: e ++ [.tcomma, .rpar])
   | paren (es) : IsSeq es → IsExpr (.lpar :: es ++ [.rpar])
@@ -273,37 +306,55 @@ def Closed (ts : List DTok) : Bool :=
 /-! ### hypotheses of the provable parts, as decidable predicates on the initializer -/
 
 mutual
-/-- hypotheses of the provable part: no `not` operator; every bytes literal renders to one well-formed lexeme -/
-def DExpr.good : DExpr → Bool
-  | .bytes b => lexOk (renderBytes b)
-  | .unary o e => o != .not && e.good
-  | .tuple xs | .list xs | .set xs => xs.good
-  | .dict kvs => kvs.good
+/-- hypotheses of the provable part: no `not` operator unless the tree spaces it; every bytes literal renders
+    to one well-formed lexeme -/
+def DExpr.good (c : DCfg) : DExpr → Bool
+  | .bytes b => lexOk (renderBytesC c b)
+  | .unary o e => (c.notSpaced || o != .not) && e.good c
+  | .tuple xs | .list xs | .set xs => xs.good c
+  | .dict kvs => kvs.good c
   | _ => true
-def DList.good : DList → Bool
+def DList.good (c : DCfg) : DList → Bool
   | .nil => true
-  | .cons x xs => x.good && xs.good
-def DPairs.good : DPairs → Bool
+  | .cons x xs => x.good c && xs.good c
+def DPairs.good (c : DCfg) : DPairs → Bool
   | .nil => true
-  | .cons k v rest => k.good && v.good && rest.good
-  | .spread v rest => v.good && rest.good
+  | .cons k v rest => k.good c && v.good c && rest.good c
+  | .spread v rest => v.good c && rest.good c
 end
 
 mutual
-/-- every float literal denotes a finite value -/
-def DExpr.finite : DExpr → Bool
-  | .float _ f => f
-  | .unary _ e => e.finite
-  | .tuple xs | .list xs | .set xs => xs.finite
-  | .dict kvs => kvs.finite
+/-- every float literal denotes a finite value, unless the tree does not render the others -/
+def DExpr.finite (c : DCfg) : DExpr → Bool
+  | .float _ f => c.nonFiniteEllipsis || f
+  | .unary _ e => e.finite c
+  | .tuple xs | .list xs | .set xs => xs.finite c
+  | .dict kvs => kvs.finite c
   | _ => true
-def DList.finite : DList → Bool
+def DList.finite (c : DCfg) : DList → Bool
   | .nil => true
-  | .cons x xs => x.finite && xs.finite
-def DPairs.finite : DPairs → Bool
+  | .cons x xs => x.finite c && xs.finite c
+def DPairs.finite (c : DCfg) : DPairs → Bool
   | .nil => true
-  | .cons k v rest => k.finite && v.finite && rest.finite
-  | .spread v rest => v.finite && rest.finite
+  | .cons k v rest => k.finite c && v.finite c && rest.finite c
+  | .spread v rest => v.finite c && rest.finite c
+end
+
+mutual
+/-- the input domain: every bytes initializer carries the body of a bytes `repr` (what mypy's parser stores) -/
+def DExpr.wf : DExpr → Bool
+  | .bytes b => scanBody (reprQuote b) b
+  | .unary _ e => e.wf
+  | .tuple xs | .list xs | .set xs => xs.wf
+  | .dict kvs => kvs.wf
+  | _ => true
+def DList.wf : DList → Bool
+  | .nil => true
+  | .cons x xs => x.wf && xs.wf
+def DPairs.wf : DPairs → Bool
+  | .nil => true
+  | .cons k v rest => k.wf && v.wf && rest.wf
+  | .spread v rest => v.wf && rest.wf
 end
 
 /-- a lexeme CPython's tokenizer accepts as such -/
